@@ -35,6 +35,7 @@ Definition S_CROP := 7.      Definition S_SCAN := 8.      Definition S_FINISH :=
 Definition S_CDEF := 10.     Definition S_CSTART := 11.   Definition S_CSCAN := 12.
 Definition S_CFINISH := 13.  Definition S_RDCOEF := 14.   Definition S_WRCOEF := 15.
 Definition S_XTHROW := 16.   Definition S_MEMDEST := 17.  Definition S_NOIMAGE := 18.
+Definition S_RDCOEF2 := 19.  Definition S_CSTART2 := 20.
 
 (* ------------------------------------------------------------ generated handlers *)
 Definition cond_expr (c : hcond) : expr :=
@@ -109,7 +110,11 @@ Definition observe_marker_state : cmd :=
   CObs "unread_marker" (EG (D "unread_marker")).
 
 Definition get_soi : cmd :=
-  seq (map (fun f => CSet (D f) (if String.eqb f "marker->saw_SOI" then EC 1 else EC 0)) get_soi_fields).
+  seq (map (fun f => CSet (D f) (if String.eqb f "marker->saw_SOI" then EC 1
+                                 else if String.eqb f "X_density" then EA "o_xDensity"
+                                 else if String.eqb f "Y_density" then EA "o_yDensity"
+                                 else if String.eqb f "density_unit" then EA "o_densityUnits"
+                                 else EC 0)) get_soi_fields).
 Definition get_sof : cmd :=
   seq (map (fun f =>
               if String.eqb f "comp_info" then CAlloc (D "comp_info")
@@ -120,7 +125,7 @@ Definition get_sof : cmd :=
   CSet (D "image_width") (EA "jw") ;; CSet (D "image_height") (EA "jh") ;; CSet (D "data_precision") (EA "jprec") ;;
   CSet (D "num_components") (EA "ncomp").
 Definition get_sos : cmd :=
-  CSet (D "Ss") (EA "Ss") ;; CSet (D "Se") (EC 63) ;; CSet (D "Ah") (EC 0) ;; CSet (D "Al") (EA "Al") ;;
+  CSet (D "Ss") (EA "o_losslessPSV") ;; CSet (D "Se") (EC 63) ;; CSet (D "Ah") (EC 0) ;; CSet (D "Al") (EA "o_losslessPt") ;;
   CSet (D "comps_in_scan") (EA "ncomp") ;; CSet (D "unread_marker") (EC 0).
 (* a self-contained stream defines every table it uses before its first scan *)
 Definition define_tables : cmd :=
@@ -141,8 +146,11 @@ Definition read_header (selfc : bool) (own_marker_reset : bool) (faked : bool) :
      CIf (EEq (EA "fail") (EC S_HDR))
          (CSet (D "marker->saw_SOI") (EA "f_soi") ;; CSet (D "marker->saw_SOF") (EA "f_sof") ;;
           CSet (D "unread_marker") (EA "f_um") ;;
-          CIf (EA "f_soi") get_soi CSkip ;;
+          CIf (EA "f_soi") (get_soi ;; CSet (D "marker->saw_SOI") (EC 1)) CSkip ;;
           CIf (EA "f_sof") get_sof CSkip ;;
+          (* get_sof may have failed half-way *)
+          CSet (D "master->lossless") (EA "lossless") ;; CSet (D "arith_code") (EA "arith") ;;
+          CSet (D "progressive_mode") (EA "prog") ;; CSet (D "marker->saw_SOF") (EA "f_sof") ;;
           CRaise) CSkip ;;
      get_soi ;;
      get_sof ;; (if selfc then define_tables else CSkip) ;; get_sos) ;;
@@ -160,7 +168,8 @@ Definition read_tables_only (selfc : bool) : cmd :=
       (CSet (D "marker->saw_SOI") (EA "f_soi") ;; CSet (D "marker->saw_SOF") (EA "f_sof") ;;
        CSet (D "unread_marker") (EA "f_um") ;; CIf (EA "f_soi") get_soi CSkip ;; CRaise) CSkip ;;
   get_soi ;; (if selfc then define_tables else CSkip) ;;
-  CSet (D "unread_marker") (EC 217) ;; CSet (D "inputctl->eoi_reached") (EC 1).
+  CIf (EA "f_sof") get_sof CSkip ;;
+  CSet (D "unread_marker") (EA "um_end") ;; CSet (D "inputctl->eoi_reached") (EC 1).
 
 Definition mem_src : cmd := CSet (D "src") (EA "img").
 
@@ -205,8 +214,12 @@ Definition observe_decode_params : cmd :=
 Definition master_selection (raw merged : bool) : cmd :=
   stage S_START0 ;;
   observe_decode_params ;;
-  CSet (D "master->using_merged_upsample") (EC (b2z merged)) ;;
-  (if raw then CSkip
+  CSet (D "master->using_merged_upsample") (if raw then EA "merged_obs" else EC (b2z merged)) ;;
+  (if raw
+   then (* lossless mode disables raw (downsampled) output: the whole pipeline is built *)
+     CIf (EG (D "master->lossless"))
+         (CSet (D "raw_data_out") (EC 0) ;; CAlloc (D "cconvert") ;; CAlloc (D "upsample") ;; CAlloc (D "post") ;; CAlloc (D "main"))
+         CSkip
    else
      (if merged then CAlloc (D "upsample")
       else CAlloc (D "cconvert") ;; stage S_STARTCC ;; CAlloc (D "upsample")) ;;
@@ -229,7 +242,7 @@ Definition start_decompress (raw merged : bool) : cmd :=
   master_selection raw merged ;;
   use_progress ;;
   CSet (D "output_scanline") (EC 0) ;;
-  CSet gsd (EC (if raw then dstate_raw_ok else dstate_scanning)).
+  CIf (EG (D "raw_data_out")) (CSet gsd (EC dstate_raw_ok)) (CSet gsd (EC dstate_scanning)).
 
 Definition read_scanlines (merged : bool) : cmd :=
   stage S_SCAN ;;
@@ -400,8 +413,8 @@ Definition set_comp_defaults : cmd :=
   seq (map (fun pr => CSet (C (fst pr)) (P (snd pr))) setcompdefaults_pairs) ;;
   CIf (P "lossless")
       (stage S_CDEF ;;
-       CSet (C "master->lossless") (EC 1) ;; CSet (C "scan_info") (EC 1) ;; CSet (C "num_scans") (EC 1) ;;
-       CObs "psv" (P "losslessPSV") ;; CObs "pt" (P "losslessPt") ;; CSet (C "optimize_coding") (EC 1))
+       CSet (C "master->lossless") (EC 1) ;;
+       CObs "psv" (P "losslessPSV") ;; CObs "pt" (P "losslessPt"))
       (CSet (C "quant_tbl_ptrs") (P "quality") ;;
        seq (map (fun pr => if String.eqb (fst pr) "optimize_coding"
                            then CIf (EEq (EG (C "data_precision")) (EC 8)) (CSet (C "optimize_coding") (P "optimize")) CSkip
@@ -417,13 +430,26 @@ Definition set_comp_defaults : cmd :=
 Definition observe_comp_params : cmd :=
   seq (map (fun f => CObs f (EG (C f))) comp_param_members_read).
 
+(* jinit_c_master_control: derives progressive_mode / num_scans from the scan script and
+   forces or forbids Huffman optimisation *)
+Definition master_control : cmd :=
+  CSet (C "progressive_mode") (EAnd (EG (C "scan_info")) (ENot (EG (C "master->lossless")))) ;;
+  CIf (EG (C "scan_info")) CSkip (CSet (C "num_scans") (EC 1)) ;;
+  CIf (EG (C "master->lossless")) (CSet (C "raw_data_in") (EC 0) ;; CSet (C "smoothing_factor") (EC 0)) CSkip ;;
+  (* per_scan_setup: a restart interval given in MCU rows is converted (the factor is image geometry) *)
+  CIf (ELt (EC 0) (EG (C "restart_in_rows"))) (CSet (C "restart_interval") (EA "ri_obs")) CSkip ;;
+  CIf (EG (C "arith_code")) (CSet (C "optimize_coding") (EC 0))
+      (CIf (EOr (EG (C "master->lossless")) (EG (C "progressive_mode"))) (CSet (C "optimize_coding") (EC 1))
+           (CIf (EEq (EG (C "data_precision")) (EC 12)) (CSet (C "optimize_coding") (EC 1)) CSkip)).
+
 (* jinit_compress_master *)
 Definition compress_master (raw : bool) : cmd :=
   stage S_CSTART ;;
   observe_comp_params ;;
+  master_control ;;
   (if raw then CSkip else CAlloc (C "cconvert") ;; CAlloc (C "downsample") ;; CAlloc (C "prep")) ;;
   CAlloc (C "fdct") ;; CAlloc (C "entropy") ;; CAlloc (C "coef") ;; CAlloc (C "main") ;; CAlloc (C "marker") ;;
-  stage S_CSTART.
+  stage S_CSTART2.
 Definition start_compress (raw : bool) : cmd :=
   CIf (ENe (EG gsc) (EC cstate_start)) CRaise CSkip ;;
   compress_master raw ;;
@@ -484,7 +510,8 @@ Definition prog_encode_yuv : prog :=
       CIf (ENe (EG gsc) (EC cstate_start)) THROW CSkip ;;
       stage S_CSTART ;;
       observe_comp_params ;;
-      CAlloc (C "cconvert") ;; stage S_CSTART ;; CAlloc (C "downsample") ;;
+      master_control ;;
+      CAlloc (C "cconvert") ;; stage S_CSTART2 ;; CAlloc (C "downsample") ;;
       CDeref (C "cconvert") ;;
       throw S_XTHROW ;;
       CSetjmp 1 ;;
@@ -534,7 +561,7 @@ Definition prog_transform (fx : fixes) (selfc : bool) : prog :=
       CAlloc (D "coef") ;;
       use_progress ;;
       CSet gsd (EC dstate_rdcoefs) ;;
-      stage S_RDCOEF ;;
+      stage S_RDCOEF2 ;;
       CDeref (D "entropy") ;; CDeref (D "coef") ;;
       CSet (D "unread_marker") (EA "um_end") ;;
       CSet gsd (EC dstate_stopping) ;;
@@ -548,10 +575,11 @@ Definition prog_transform (fx : fixes) (selfc : bool) : prog :=
       CIf (EOr (P "arithmetic") (EA "x_arithmetic")) (CSet (C "arith_code") (EC 1) ;; CSet (C "optimize_coding") (EC 0)) CSkip ;;
       CSet (C "restart_interval") (P "restartIntervalBlocks") ;; CSet (C "restart_in_rows") (P "restartIntervalRows") ;;
       CIf (EA "nooutput")
-          (stage S_WRCOEF ;; observe_comp_params ;; throw S_XTHROW)
+          (stage S_WRCOEF ;; observe_comp_params ;; master_control ;; throw S_XTHROW)
           (CIf (ENe (EG gsc) (EC cstate_start)) CRaise CSkip ;;
            stage S_WRCOEF ;;
            observe_comp_params ;;
+           master_control ;;
            CAlloc (C "entropy") ;; CAlloc (C "coef") ;; CAlloc (C "marker") ;;
            CSet (C "next_scanline") (EC 0) ;;
            CSet gsc (EC cstate_wrcoefs) ;;
@@ -689,11 +717,13 @@ Definition ok_hist (fx : fixes) (k : opk) : bool :=
 (* as a probe sequence: additionally every value a call reads was written by the sequence
    itself or is a parameter.  All exits are at START, hence merged into one abstract state;
    the next call starts from it (no pointer is assumed valid across calls). *)
-Definition next_entry (exits : list astate) : astate :=
-  match exits with
-  | a :: _ => mka CSTART DSTART (a_s a) []
-  | [] => mka CSTART DSTART [] []
+Fixpoint inter_all (l : list astate) : list fld :=
+  match l with
+  | [] => []
+  | [a] => a_s a
+  | a :: t => inter (a_s a) (inter_all t)
   end.
+Definition next_entry (exits : list astate) : astate := mka CSTART DSTART (inter_all exits) [].
 Fixpoint ok_seq (fx : fixes) (a : astate) (ks : list opk) : bool :=
   match ks with
   | [] => true
